@@ -153,21 +153,21 @@ macro_rules! e_px {
 e_px!(e_px_shared_object_add_noack, 6, 0, 2);
 // @harness props=C18,C01,C06,C07,C10 tier=quick reach=off timeout=500 bound="Backend::shared_object_add: all argument bytes; feature flag not set: refused, nothing on the wire; conformant ack header" stubs="raw_recvmsg/raw_sendmsg (ghost socket + lock probe), OwnedFd::drop, handle_alloc_error, From<vhost_user::Error> for io::Error (payload dropped)"
 e_px!(e_px_shared_object_add_gated, 6, 0, 1);
-// @harness props=C18,C01,C06,C07,C10 tier=thorough reach=off timeout=500 bound="Backend::shared_object_remove: all argument bytes; REPLY_ACK not negotiated: no acknowledgement written or awaited; conformant ack header" stubs="raw_recvmsg/raw_sendmsg (ghost socket + lock probe), OwnedFd::drop, handle_alloc_error, From<vhost_user::Error> for io::Error (payload dropped)"
+// @harness props=C18,C01,C06,C07,C10 tier=quick reach=off timeout=500 bound="Backend::shared_object_remove: all argument bytes; REPLY_ACK not negotiated: no acknowledgement written or awaited; conformant ack header" stubs="raw_recvmsg/raw_sendmsg (ghost socket + lock probe), OwnedFd::drop, handle_alloc_error, From<vhost_user::Error> for io::Error (payload dropped)"
 e_px!(e_px_shared_object_remove_noack, 7, 0, 2);
-// @harness props=C18,C01,C06,C07,C10 tier=thorough reach=off timeout=500 bound="Backend::shared_object_remove: all argument bytes; feature flag not set: refused, nothing on the wire; conformant ack header" stubs="raw_recvmsg/raw_sendmsg (ghost socket + lock probe), OwnedFd::drop, handle_alloc_error, From<vhost_user::Error> for io::Error (payload dropped)"
+// @harness props=C18,C01,C06,C07,C10 tier=quick reach=off timeout=500 bound="Backend::shared_object_remove: all argument bytes; feature flag not set: refused, nothing on the wire; conformant ack header" stubs="raw_recvmsg/raw_sendmsg (ghost socket + lock probe), OwnedFd::drop, handle_alloc_error, From<vhost_user::Error> for io::Error (payload dropped)"
 e_px!(e_px_shared_object_remove_gated, 7, 0, 1);
-// @harness props=C18,C01,C06,C07,C10,C09 tier=thorough reach=off timeout=500 bound="Backend::shared_object_lookup: all argument bytes; REPLY_ACK not negotiated: no acknowledgement written or awaited; conformant ack header" stubs="raw_recvmsg/raw_sendmsg (ghost socket + lock probe), OwnedFd::drop, handle_alloc_error, From<vhost_user::Error> for io::Error (payload dropped)"
+// @harness props=C18,C01,C06,C07,C10,C09 tier=quick reach=off timeout=500 bound="Backend::shared_object_lookup: all argument bytes; REPLY_ACK not negotiated: no acknowledgement written or awaited; conformant ack header" stubs="raw_recvmsg/raw_sendmsg (ghost socket + lock probe), OwnedFd::drop, handle_alloc_error, From<vhost_user::Error> for io::Error (payload dropped)"
 e_px!(e_px_shared_object_lookup_noack, 8, 0, 2);
-// @harness props=C18,C01,C06,C07,C10,C09 tier=thorough reach=off timeout=500 bound="Backend::shared_object_lookup: all argument bytes; feature flag not set: refused, nothing on the wire; conformant ack header" stubs="raw_recvmsg/raw_sendmsg (ghost socket + lock probe), OwnedFd::drop, handle_alloc_error, From<vhost_user::Error> for io::Error (payload dropped)"
+// @harness props=C18,C01,C06,C07,C10,C09 tier=quick reach=off timeout=500 bound="Backend::shared_object_lookup: all argument bytes; feature flag not set: refused, nothing on the wire; conformant ack header" stubs="raw_recvmsg/raw_sendmsg (ghost socket + lock probe), OwnedFd::drop, handle_alloc_error, From<vhost_user::Error> for io::Error (payload dropped)"
 e_px!(e_px_shared_object_lookup_gated, 8, 0, 1);
 // @harness props=C18,C01,C06,C07,C10,C09 tier=quick reach=off timeout=500 bound="Backend::shmem_map: all argument bytes; REPLY_ACK not negotiated: no acknowledgement written or awaited; conformant ack header" stubs="raw_recvmsg/raw_sendmsg (ghost socket + lock probe), OwnedFd::drop, handle_alloc_error, From<vhost_user::Error> for io::Error (payload dropped)"
 e_px!(e_px_shmem_map_noack, 9, 0, 4);
 // @harness props=C18,C01,C06,C07,C10,C09 tier=quick reach=off timeout=500 bound="Backend::shmem_map: all argument bytes; feature flag not set: refused, nothing on the wire; conformant ack header" stubs="raw_recvmsg/raw_sendmsg (ghost socket + lock probe), OwnedFd::drop, handle_alloc_error, From<vhost_user::Error> for io::Error (payload dropped)"
 e_px!(e_px_shmem_map_gated, 9, 0, 1);
-// @harness props=C18,C01,C06,C07,C10 tier=thorough reach=off timeout=500 bound="Backend::shmem_unmap: all argument bytes; REPLY_ACK not negotiated: no acknowledgement written or awaited; conformant ack header" stubs="raw_recvmsg/raw_sendmsg (ghost socket + lock probe), OwnedFd::drop, handle_alloc_error, From<vhost_user::Error> for io::Error (payload dropped)"
+// @harness props=C18,C01,C06,C07,C10 tier=quick reach=off timeout=500 bound="Backend::shmem_unmap: all argument bytes; REPLY_ACK not negotiated: no acknowledgement written or awaited; conformant ack header" stubs="raw_recvmsg/raw_sendmsg (ghost socket + lock probe), OwnedFd::drop, handle_alloc_error, From<vhost_user::Error> for io::Error (payload dropped)"
 e_px!(e_px_shmem_unmap_noack, 10, 0, 4);
-// @harness props=C18,C01,C06,C07,C10 tier=thorough reach=off timeout=500 bound="Backend::shmem_unmap: all argument bytes; feature flag not set: refused, nothing on the wire; conformant ack header" stubs="raw_recvmsg/raw_sendmsg (ghost socket + lock probe), OwnedFd::drop, handle_alloc_error, From<vhost_user::Error> for io::Error (payload dropped)"
+// @harness props=C18,C01,C06,C07,C10 tier=quick reach=off timeout=500 bound="Backend::shmem_unmap: all argument bytes; feature flag not set: refused, nothing on the wire; conformant ack header" stubs="raw_recvmsg/raw_sendmsg (ghost socket + lock probe), OwnedFd::drop, handle_alloc_error, From<vhost_user::Error> for io::Error (payload dropped)"
 e_px!(e_px_shmem_unmap_gated, 10, 0, 1);
 
 // ---- acknowledged requests at unit level: BackendInternal::send_message / wait_for_ack on an endpoint built
